@@ -793,6 +793,9 @@ func TestVP_C07_DecompressLimit(t *testing.T) {
 func TestVP_C07_MultipartLimit(t *testing.T) {
 	rapid.Check(t, func(t *rapid.T) {
 		L := vpC07GenLimit(t, vpScale(64*1024, 512*1024))
+		if L < 400 && rapid.IntRange(0, 3).Draw(t, "liftL") > 0 {
+			L += 400 // the smallest well-formed form has 140-330 bytes: keep most limits above it so that sizes L-1, L, L+1 exist
+		}
 		size, rel := vpC07GenSize(t, L)
 		mode := rapid.SampledFrom([]string{"plain", "plain", "gzip", "stream"}).Draw(t, "mode")
 		// build a well-formed form whose encoded length is exactly `size` (when size allows a form at all)
